@@ -184,6 +184,17 @@ def shiftOKB (C : Crys) (g : Op) : Bool :=
 /-- the op is a symmetry of the crystal data -/
 def crysOpB (C : Crys) (g : Op) : Bool := metricOKB C g && shiftOKB C g
 
+/-- Decidable form of all hypotheses of the theorems for a given crystal, op list, threshold and
+    jump list: group test, crystal-symmetry test, `thr ≥ 0`, no zero jump, jumps between sites of
+    the crystal, jump list closed under the ops. -/
+def settingB (C : Crys) (G : List Op) (thr : Rat) (J : List PS) : Bool :=
+  groupClosedB C.nsites G && G.all (crysOpB C) && decide (0 ≤ thr) &&
+  J.all (fun j => !j.isZero) && J.all (fun j => decide (j.i < C.nsites) && decide (j.j < C.nsites)) &&
+  G.all fun g => J.all fun j => J.contains (act g j)
+
+/-- the jump list contains the reverse of each of its jumps -/
+def negClosedB (J : List PS) : Bool := J.all fun j => J.contains j.neg
+
 /-! ### duplicate-free lists as sets -/
 
 def dedup {α} [DecidableEq α] : List α → List α
@@ -283,7 +294,7 @@ def iaddNew (S1 S2 : List PS) : List PS :=
   dedup ((S1.flatMap fun s1 => S2.filterMap fun s2 => addNZ s1 s2).filter fun s => !S1.contains s)
 
 inductive Err
-  | index   -- IndexError (`self.states[Nold]` when nothing new was produced)
+  | index   -- IndexError
   | value   -- ValueError
 deriving Repr, DecidableEq
 
@@ -292,7 +303,8 @@ def iadd (C : Crys) (G : List Op) (thr : Rat) (A B : StarSet) : Except Err StarS
   else if A.nshells < 1 then .ok { A with nshells := B.nshells, states := B.states, stars := B.stars }
   else
     let new := sortByKey (x2 C) (iaddNew A.states B.states)
-    if new.isEmpty then .error .index
+    -- `if Nnew == Nold: return self` (only `Nshells` has changed)
+    if new.isEmpty then .ok { A with nshells := A.nshells + B.nshells }
     else .ok { nshells := A.nshells + B.nshells, states := A.states ++ new,
                stars := A.stars ++ starsOf C G thr new }
 
@@ -404,7 +416,7 @@ def bool01 (b : Bool) : String := if b then "1" else "0"
 
 /-- Requests
     * `crys <u;u;…> <m1> <m2> <m3> <thr> <op;op;…>` → `ok <groupClosed> <crysOps>`
-    * `net <class/class/…>` (class = `i,j,x,y,z;…`) → `ok <njumps>`
+    * `net <class/class/…>` (class = `i,j,x,y,z;…`) → `ok <njumps> <settingB> <negClosedB>`
     * `gen <N> <origin01>` → `ok N states stars`
     * `add <N1> <o1> <N2> <o2>`, `diff <N1> <o1> <N2> <o2>` → same shape or an error word
     * `index <N> <origin01> <state>` → `xi si` within the model's own order, or `none`
@@ -422,7 +434,8 @@ def handle (σ : Session) (line : String) : Session × String :=
     | _, _, _, _, _, _ => (σ, "bad-request")
   | ["net", j] =>
     match parseStars? j with
-    | some J => ({ σ with Jcls := J }, s!"ok {J.flatten.length}")
+    | some J => ({ σ with Jcls := J },
+        s!"ok {J.flatten.length} {bool01 (settingB σ.C σ.G σ.thr J.flatten)} {bool01 (negClosedB J.flatten)}")
     | none => (σ, "bad-request")
   | ["gen", n, o] =>
     match parseNat? n, parseNat? o with
